@@ -40,15 +40,17 @@ type World struct {
 	pathMemo map[*ssa.Function][]*Path
 	pathErr  map[*ssa.Function]error
 
-	NoInline  bool
-	inlBudget int
-	boundary  map[*ssa.Function]string
-	inlMemo   map[*ssa.Function]bool
-	inlIfs    map[*ssa.Function]int
-	addrTaken map[*ssa.Function]bool
-	callers   map[*ssa.Function][]*ssa.Function
-	recursive map[*ssa.Function]bool
-	byKey     map[string]*ssa.Function
+	NoInline   bool
+	inlBudget  int
+	boundary   map[*ssa.Function]string
+	inlMemo    map[*ssa.Function]bool
+	inlIfs     map[*ssa.Function]int
+	addrTaken  map[*ssa.Function]bool
+	callers    map[*ssa.Function][]*ssa.Function
+	recursive  map[*ssa.Function]bool
+	byKey      map[string]*ssa.Function
+	globalInit map[string]*T
+	globalRO   map[string]bool
 }
 
 func LoadWorld(root string) (*World, error) {
